@@ -95,6 +95,21 @@ class Helper:
         body = fdef.body
         self.expr = body[0].value if len(body) == 1 and isinstance(body[0], ast.Return) and body[0].value is not None and not self.is_gen else None
         self.expr_simple = self.expr is not None
+        # `if c: return a` ... `return b`  is the conditional expression  a if c else b
+        if self.expr is None and not self.is_gen:
+            def as_expr(stmts):
+                if len(stmts) == 1 and isinstance(stmts[0], ast.Return) and stmts[0].value is not None:
+                    return stmts[0].value
+                if stmts and isinstance(stmts[0], ast.If):
+                    b_ = as_expr(stmts[0].body)
+                    o_ = as_expr(stmts[0].orelse + stmts[1:]) if (stmts[0].orelse or stmts[1:]) else None
+                    if b_ is not None and o_ is not None and (not stmts[0].orelse or not stmts[1:]):
+                        return ast.copy_location(ast.IfExp(test=stmts[0].test, body=b_, orelse=o_), stmts[0])
+                return None
+            e_ = as_expr(list(body))
+            if e_ is not None:
+                self.expr = e_
+                self.expr_simple = True
         # straight-line helpers `t = e1; u = e2(t); return e(t, u)` are expressions too (each temporary assigned once, not a parameter)
         if self.expr is None and not self.is_gen and len(body) >= 2 and isinstance(body[-1], ast.Return) and body[-1].value is not None \
                 and all(isinstance(x, ast.Assign) and len(x.targets) == 1 and isinstance(x.targets[0], ast.Name) for x in body[:-1]):
